@@ -6,7 +6,7 @@ from .c07 import rule_domain
 from .c11 import rule_eligible_only, rule_frequency_zero
 from .c12 import rule_pool_guard
 from .c13 import rule_buffer
-from .c14 import rule_frame_kind_dispatch, rule_casts
+from .c14 import rule_frame_kind_dispatch, rule_casts, rule_permit_before_buffer
 from .c16 import rule_replica_caches
 
 RULES = [
@@ -22,4 +22,7 @@ RULES = [
     ("C13.5", rule_buffer),
     # transient_stream::ReadStream::read_exact `unreachable!("Bad FrameKind")`; StreamId::new assertion
     ("C14.4", rule_frame_kind_dispatch), ("C14.8", rule_casts),
+    # "never buffers more than its configured limits": every frame the mux queues for a stream (DATA and OPEN/CLOSE)
+    # holds a read_frame_count permit, DATA additionally read_buffer_size permits of its size
+    ("C14.1", rule_permit_before_buffer),
 ]
